@@ -15,8 +15,9 @@ package rt
 
 // GuardSlice2: the result has the same contents and at least n bytes of spare capacity.
 //@ func GuardSlice2 props C05,C06,C20
-//@   requires 0 <= n && n <= 140737488355328
+//@   requires 0 <= n && n <= 281474976710656
 //@   ensures len(result) == len(buf) && cap(result) - len(result) >= n
 //@   ensures base(result) == base(buf) || fresh(result)
 //@   ensures base(result) == base(buf) ==> same(result, buf)
 //@   ensures txt(result) == txt(buf)
+//@   ensures forall j int :: (0 <= j && j < len(buf)) ==> result[j] == old(buf[j])
